@@ -29,6 +29,9 @@ pub mod verif_support {
         fn sym() -> Self { next_bytes()[0] != 0 }
     }
     impl<const N: usize> Sym for [u8; N] {
+        #[cfg(kani)]
+        fn sym() -> Self { kani::any() }
+        #[cfg(not(kani))]
         fn sym() -> Self {
             let mut a = [0u8; N];
             let mut i = 0;
